@@ -25,3 +25,4 @@ open HmcVerif.C01
 #print axioms HmcVerif.piecewise_measure
 #print axioms propose_volume_preserving_boxed_diag
 #print axioms HmcVerif.trajBox_mp
+#print axioms propose_reversible_boxed_diag_ae
